@@ -500,6 +500,130 @@ Proof.
   - apply Forall2_mk. intros i Hi. destruct (HX i Hi) as [HL HM]. repeat split; auto.
     now apply HU1.
 Qed.
+
+(* ---- the two-index models (Assembly14.two_asymm_n / two_symm_n), mix path ---- *)
+Notation block2' := (block2 azero aadd ascale).
+Let d0 : @sh F := mkSh false [] [].
+Definition Ui (ss : list (@sh F)) (i : nat) : list (list F) :=
+  U_of K (sh_sph (nth i ss d0)) (nth i ss d0).
+(* (+)_s T_s for a list of shells *)
+Definition Ulist (ss : list (@sh F)) : list (list F) := bdiag K (mk (length ss) (Ui ss)).
+Definition Wlist (ss : list (@sh F)) : nat := fold_right plus 0 (mk (length ss) (fun j => length (Ui ss j))).
+
+(* shape hypotheses on the block of shells (s1, s2) *)
+Definition pair_ok (s1 s2 : @sh F) (blk : list (list (list (list A)))) : Prop :=
+  block2_ok ascale P (sh_sph s1) (sh_sph s2) s1 s2 blk /\
+  U_left K ascale (sh_sph s1) s1 s2 blk = U_of K (sh_sph s1) s1 /\
+  rect (U_of K (sh_sph s1) s1) /\ rect (U_of K (sh_sph s2) s2) /\
+  length (block2' false false s1 s2 blk) = ncols (U_of K (sh_sph s1) s1) /\
+  mat_ok (ncols (U_of K (sh_sph s2) s2)) (block2' false false s1 s2 blk).
+
+Lemma pair_law s1 s2 blk : pair_ok s1 s2 blk ->
+  block2' (sh_sph s1) (sh_sph s2) s1 s2 blk
+  = mat_left_w' (length (U_of K (sh_sph s2) s2)) (U_of K (sh_sph s1) s1)
+      (mat_right' (U_of K (sh_sph s2) s2) (block2' false false s1 s2 blk)).
+Proof.
+  intros (Hok & HU & _). rewrite (block2_is_cart_transformed K azero aadd ascale P); auto.
+  now rewrite HU, (axis_width_U K).
+Qed.
+
+(* (a) two indices, asymmetric class (both lists non-empty, as the constructor demands) *)
+Lemma two_asymm_mix_is_cart_transformed ss1 ss2 bf :
+  0 < length ss1 -> 0 < length ss2 ->
+  (forall i j, i < length ss1 -> j < length ss2 -> pair_ok (nth i ss1 d0) (nth j ss2 d0) (bf i j)) ->
+  two_asymm_n azero aadd ascale 2 ss1 ss2 bf
+  = mat_left_w' (Wlist ss2) (Ulist ss1) (mat_right' (Ulist ss2) (two_asymm_n azero aadd ascale 0 ss1 ss2 bf)).
+Proof.
+  intros Hn1 Hn H. unfold two_asymm_n, Ulist, Wlist.
+  apply (asm_blocks (length ss1) (length ss2) (Ui ss1) (Ui ss2)); auto.
+  - intros i j Hi Hj. now apply pair_law, H.
+  - intros i Hi. destruct (H i 0 Hi Hn) as (_ & _ & HR & _). exact HR.
+  - intros j Hj. destruct (H 0 j Hn1 Hj) as (_ & _ & _ & HR & _). exact HR.
+  - intros i j Hi Hj. destruct (H i j Hi Hj) as (_ & _ & _ & _ & HL & HM). split; assumption.
+Qed.
+
+(* (a) two indices, symmetric class.  The upper blocks (i < j) are processed blocks, every other
+   block is the transpose of the mirrored processed block (two_symm_blocks_t).  PARTIAL: the law
+   "transposition exchanges the roles of the two transforms" for the mirrored blocks,
+     transpose (L_Uj (R_Ui C)) = L_Ui (R_Uj (transpose C)),
+   is taken as hypothesis [Hlow] here (its proof needs additivity / commutativity laws of the
+   module that the other theorems do not need); everything else is proved. *)
+Lemma two_symm_mix_is_cart_transformed_partial ss bf :
+  0 < length ss ->
+  (forall i j, i < length ss -> j < length ss -> pair_ok (nth i ss d0) (nth j ss d0) (bf i j)) ->
+  (* Hlow *)
+  (forall i j, j <= i -> i < length ss ->
+     let C := block2' false false (nth j ss d0) (nth i ss d0) (bf j i) in
+     transpose azero (mat_left_w' (length (Ui ss i)) (Ui ss j) (mat_right' (Ui ss i) C))
+     = mat_left_w' (length (Ui ss j)) (Ui ss i) (mat_right' (Ui ss j) (transpose azero C)) /\
+     length (transpose azero C) = ncols (Ui ss i) /\ mat_ok (ncols (Ui ss j)) (transpose azero C)) ->
+  two_symm_n azero aadd ascale 2 ss bf
+  = mat_left_w' (Wlist ss) (Ulist ss) (mat_right' (Ulist ss) (two_symm_n azero aadd ascale 0 ss bf)).
+Proof.
+  intros Hn H Hlow. unfold two_symm_n, two_symm_blocks_t, Ulist, Wlist.
+  change (vcat (mk (length ss) (fun i => hcat (mk (length ss) (fun j =>
+            if i <? j then block2' (sh_sph (nth i ss d0)) (sh_sph (nth j ss d0)) (nth i ss d0) (nth j ss d0) (bf i j)
+            else transpose azero (block2' (sh_sph (nth j ss d0)) (sh_sph (nth i ss d0)) (nth j ss d0) (nth i ss d0) (bf j i)))))))
+    with (two_asymm_blocks (length ss) (length ss) (fun i j =>
+            if i <? j then block2' (sh_sph (nth i ss d0)) (sh_sph (nth j ss d0)) (nth i ss d0) (nth j ss d0) (bf i j)
+            else transpose azero (block2' (sh_sph (nth j ss d0)) (sh_sph (nth i ss d0)) (nth j ss d0) (nth i ss d0) (bf j i)))).
+  change (vcat (mk (length ss) (fun i => hcat (mk (length ss) (fun j =>
+            if i <? j then block2' false false (nth i ss d0) (nth j ss d0) (bf i j)
+            else transpose azero (block2' false false (nth j ss d0) (nth i ss d0) (bf j i)))))))
+    with (two_asymm_blocks (length ss) (length ss) (fun i j =>
+            if i <? j then block2' false false (nth i ss d0) (nth j ss d0) (bf i j)
+            else transpose azero (block2' false false (nth j ss d0) (nth i ss d0) (bf j i)))).
+  apply (asm_blocks (length ss) (length ss) (Ui ss) (Ui ss)); auto.
+  - intros i j Hi Hj. cbv beta. fold d0. destruct (Nat.ltb_spec i j) as [Hij|Hij].
+    + now apply pair_law, H.
+    + rewrite (pair_law _ _ _ (H j i Hj Hi)). now apply (Hlow i j Hij Hi).
+  - intros i Hi. destruct (H i 0 Hi Hn) as (_ & _ & HR & _). exact HR.
+  - intros j Hj. destruct (H 0 j Hn Hj) as (_ & _ & _ & HR & _). exact HR.
+  - intros i j Hi Hj. cbv beta. fold d0. destruct (Nat.ltb_spec i j) as [Hij|Hij].
+    + destruct (H i j Hi Hj) as (_ & _ & _ & _ & HL & HM). split; assumption.
+    + destruct (Hlow i j Hij Hi) as (_ & HL & HM). split; assumption.
+Qed.
+
+(* (b) two indices: the three code paths are the one function of the types *)
+Lemma two_asymm_paths mode ss1 ss2 bf :
+  (mode = 0 -> forall s, In s ss1 \/ In s ss2 -> sh_sph s = false) ->
+  (mode = 1 -> forall s, In s ss1 \/ In s ss2 -> sh_sph s = true) ->
+  two_asymm_n azero aadd ascale mode ss1 ss2 bf = two_asymm_n azero aadd ascale 2 ss1 ss2 bf.
+Proof.
+  intros H0 H1. unfold two_asymm_n, two_asymm_blocks. f_equal. apply mk_ext. intros i Hi. f_equal.
+  apply mk_ext. intros j Hj. cbv zeta. fold d0.
+  destruct mode as [|[|m]]; [| |reflexivity].
+  - rewrite (H0 eq_refl (nth i ss1 d0)), (H0 eq_refl (nth j ss2 d0)); auto using nth_In.
+  - rewrite (H1 eq_refl (nth i ss1 d0)), (H1 eq_refl (nth j ss2 d0)); auto using nth_In.
+Qed.
+
+Lemma two_symm_paths mode ss bf :
+  (mode = 0 -> forall s, In s ss -> sh_sph s = false) ->
+  (mode = 1 -> forall s, In s ss -> sh_sph s = true) ->
+  two_symm_n azero aadd ascale mode ss bf = two_symm_n azero aadd ascale 2 ss bf.
+Proof.
+  intros H0 H1. unfold two_symm_n, two_symm_blocks_t. f_equal. apply mk_ext. intros i Hi. f_equal.
+  apply mk_ext. intros j Hj. cbv zeta. fold d0.
+  destruct mode as [|[|m]]; [| |reflexivity].
+  - rewrite (H0 eq_refl (nth i ss d0)), (H0 eq_refl (nth j ss d0)); auto using nth_In.
+  - rewrite (H1 eq_refl (nth i ss d0)), (H1 eq_refl (nth j ss d0)); auto using nth_In.
+Qed.
+
+(* (c) two indices: lincomb is T1 on index 0 then T2 on index 1; entry (i, j) is
+   sum_l T2[j][l] * (sum_k T1[i][k] * row_k)[l] *)
+Lemma lincomb2n_entry T1 T2 (m : list (list A)) i j :
+  i < length T1 -> j < length T2 ->
+  nth j (nth i (lincomb2n azero aadd ascale (Some T1) (Some T2) m) []) azero
+  = dot azero aadd ascale (nth j T2 [])
+      (dotR (length (hd [] m)) (nth i T1 []) m).
+Proof.
+  intros Hi Hj. unfold lincomb2n, mat_right, mat_left.
+  set (w := length (hd [] m)).
+  rewrite (nth_indep _ [] (linA T2 (dotR w [] m))) by (unfold lin; now rewrite !map_length).
+  rewrite (map_nth (linA T2)).
+  rewrite (lin_entry azero aadd ascale T2 _ j Hj). f_equal.
+  unfold lin. now rewrite (map_nth (fun t => dotR w t m)).
+Qed.
 End AsmP.
 
 (* ------------------------------------------------------------------ *)
